@@ -330,4 +330,27 @@ def runStream (trk : Tracker) (me : Bytes) (evs : List Ev) (cut : Bytes → List
   let rr := readLoop trk (wire.length + 1) r0 ps
   ⟨w.1, rr.1, rr.2.broken, w.2.broken⟩
 
+/-! ### A stream on a pooled connection (`NodeConnectionPool.Get` after `Release`) -/
+
+/-- `Conn.IsHealthy` as the pool applies it to an idle connection; `arrived` = inbound bytes already
+received.  Nothing pending: the 1 ms probe read times out, the connection is healthy.  Pending bytes
+(residual frames of the tunnel that used the connection before): not reusable — the probe has consumed
+a byte, a frame stream on this connection would be misaligned.  (Repaired code; as found the probe
+answered "healthy" after eating the byte.) -/
+def isHealthy (arrived : Bytes) : Bool := arrived.isEmpty
+
+structure PlObs where
+  reused : Bool
+  st : StObs
+deriving DecidableEq, Repr
+
+/-- The previous tunnel's late frames `residual` reach the idle connection, the connection is
+released and `Get` is called again for OUR tunnel, whose scenario then runs on the connection handed
+out: the idle one if healthy (its inbound bytes are then exactly our scenario's wire, nothing is
+pending), otherwise a fresh one (the idle one is closed, the residual frames go with it). -/
+def runPool (trk : Tracker) (me : Bytes) (residual evs : List Ev) (cut : Bytes → List Bytes) (tail : Tail)
+    (rw : Bool) (ps : List Nat) : PlObs :=
+  let r := (runWriter (FS.init (tunnelIDFromString me) ⟨[], .eof⟩) residual).2.out
+  ⟨isHealthy r, runStream trk me evs cut tail rw ps⟩
+
 end Tunnox.C10
